@@ -173,7 +173,7 @@ def matmul_dense_mismatch(ob, d, k, nb):
         't_on_tensor', 'sum_out_of_range', 'sum_list_out_of_range', 'sum_list_high_first', 'sum_ttm_out_of_range', 'sum_negative', 'sum_bad_type', 'mprod_on_ttm', 'mprod_size', 'mprod_bad_args', 'mprod_mode_range',
         'qtt_not_list', 'qtt_shape', 'getitem_too_few', 'getitem_too_many', 'getitem_int_range', 'getitem_float', 'getitem_two_ellipsis',
         'getitem_int_on_order2', 'getitem_slice_on_order2', 'getitem_ttm_ellipsis', 'getitem_ttm_mixed', 'set_core_index', 'set_core_rank',
-        'fast_matvec_not_tt', 'fast_matvec_kinds', 'fast_matvec_shape', 'fast_matvec_order', 'mprod_list_len', 'getitem_ttm_odd', 'to_qtt_not_power', 'to_qtt_ttm_rect', 'ctor_bad_source', 'getitem_str')],
+        'fast_matvec_not_tt', 'fast_matvec_kinds', 'fast_matvec_shape', 'fast_matvec_order', 'mprod_list_len', 'getitem_ttm_odd', 'to_qtt_not_power', 'to_qtt_tensor_not_power', 'to_qtt_ttm_rect', 'ctor_bad_source', 'getitem_str')],
           expect='raise', replay='misuse')
 def method_misuse(ob, case):
     ex = ob.ex
@@ -275,6 +275,9 @@ def method_misuse(ob, case):
         ob.ret = ex.optable.subscript(ex, x, (0, 0, 0, 0, 0))
     elif case == 'to_qtt_not_power':
         x = ob.tt('x', 2, ttm=True, N=[6, 4], M=[6, 4])
+        ob.ret = call(x, 'to_qtt')
+    elif case == 'to_qtt_tensor_not_power':
+        x = ob.tt('x', 2, N=[3, 2])
         ob.ret = call(x, 'to_qtt')
     elif case == 'to_qtt_ttm_rect':
         x = ob.tt('x', 1, ttm=True, N=[4], M=[2])
